@@ -36,7 +36,7 @@ pub const GROUPS: &[(&str, &[(&str, &[Sel])])] = &[
     (
         "Common",
         &[
-            ("renet/src/packet.rs", &[Sel::Const("SLICE_SIZE")]),
+            ("renet/src/packet.rs", &[Sel::Const("SLICE_SIZE"), Sel::Struct("Slice"), Sel::Enum("Packet")]),
             ("renetcode/src/lib.rs", &[Sel::Const("NETCODE_VERSION_INFO"), Sel::Const("NETCODE_USER_DATA_BYTES")]),
             ("renetcode/src/client.rs", &[Sel::Enum("DisconnectReason")]),
             ("renetcode/src/token.rs", &[Sel::Enum("TokenGenerationError")]),
@@ -84,12 +84,37 @@ pub const GROUPS: &[(&str, &[(&str, &[Sel])])] = &[
         &[(
             "renet/src/packet.rs",
             &[
-                Sel::Struct("Slice"),
-                Sel::Enum("Packet"),
                 Sel::Enum("SerializationError"),
                 Sel::From("SerializationError", "BufferTooShortError"),
                 Sel::Method("Packet", "to_bytes"),
                 Sel::Method("Packet", "from_bytes"),
+            ],
+        )],
+    ),
+    (
+        "SendUnrel",
+        &[(
+            "renet/src/channel/unreliable.rs",
+            &[
+                Sel::Struct("SendChannelUnreliable"),
+                Sel::Method("SendChannelUnreliable", "new"),
+                Sel::Method("SendChannelUnreliable", "can_send_message"),
+                Sel::Method("SendChannelUnreliable", "available_memory"),
+                Sel::Method("SendChannelUnreliable", "send_message"),
+                Sel::Method("SendChannelUnreliable", "get_packets_to_send"),
+            ],
+        )],
+    ),
+    // unreliable RECEIVE channel, message queue part only (struct view: the `BTreeMap` slice tables and the
+    // methods using them — `new`, `process_slice`, `discard_incomplete_old_slices` — are not translated yet)
+    (
+        "RecvUnrel",
+        &[(
+            "renet/src/channel/unreliable.rs",
+            &[
+                Sel::StructView("ReceiveChannelUnreliable", &["channel_id", "messages", "max_memory_usage_bytes", "memory_usage_bytes"]),
+                Sel::Method("ReceiveChannelUnreliable", "process_message"),
+                Sel::Method("ReceiveChannelUnreliable", "receive_message"),
             ],
         )],
     ),
@@ -161,11 +186,14 @@ pub fn group_names() -> Vec<String> {
 /// order).  The expression is evaluated at loop entry; the emitted loop runs its body at most that many
 /// times (the last run is the one whose condition fails) and otherwise panics at the distinguished site
 /// `"<file>:<fn>: fuel exhausted"` — the equivalence proofs show that this site is never reached.
-pub const WHILE_FUEL: &[(&str, &str, &[&str])] = &[(
-    "renet/src/remote_connection.rs",
-    "RenetClient::acked_largest",
-    &["self.pending_acks.len() + 1"],
-)];
+pub const WHILE_FUEL: &[(&str, &str, &[&str])] = &[
+    ("renet/src/remote_connection.rs", "RenetClient::acked_largest", &["self.pending_acks.len() + 1"]),
+    (
+        "renet/src/channel/unreliable.rs",
+        "SendChannelUnreliable::get_packets_to_send",
+        &["self.unreliable_messages.len() + 1"],
+    ),
+];
 
 /// External types that are not translated but mapped to an opaque RustSem type
 /// (last path segments, Lean name).
